@@ -93,16 +93,16 @@ def run(tier, seed):
         return c.finish()
     n = 14
     asan = _launch("asan", n, seed, tier, _asan_env())
-    res = _collect(asan, 1500 if tier == "quick" else 20000)
+    res = _collect(asan, 600 if tier == "quick" else 20000)
     _digest(c, "asan", res, seed, tier, stats, shim_rows)
     # the same items under CPython's debug allocator: it checks which allocator API every block came from and the
     # pad bytes around every block (the sanitizer leg runs with PYTHONMALLOC=malloc and cannot see an API mix-up)
     dbg = _launch("asan", n, seed, tier, {"PYTHONMALLOC": "debug", "C07_LEG": "dbg"})
-    res = _collect(dbg, 1500 if tier == "quick" else 20000)
+    res = _collect(dbg, 600 if tier == "quick" else 20000)
     _digest(c, "dbg", res, seed, tier, stats_dbg := {}, [])
     stats["debug_allocator_items"] = sum(stats_dbg.get(k, 0) for k in ("tok", "inj"))
     leak = _launch("leak", n, seed, tier, {})
-    res = _collect(leak, 1500 if tier == "quick" else 20000)
+    res = _collect(leak, 600 if tier == "quick" else 20000)
     _digest(c, "leak", res, seed, tier, stats, [])
     # ---- model vs real textbuffer.c
     dis = 0
